@@ -12,6 +12,7 @@ class Algebra:
     def __init__(s, term_cap=200000, nonneg_check=None):
         s.ctx = Ctx(); s.memo = {}; s.keep = []
         s.exp = {}; s.expkey = {}      # E sym -> RF argument
+        s.acoskey = {}                 # canonical acos symbols by normal form of the argument
         s.term_cap = term_cap
         s.nonneg_check = nonneg_check  # callable(z3 expr) -> bool : is expr >= 0 on the domain?
         s.intvars = {}
@@ -47,7 +48,10 @@ class Algebra:
                     t = s.rf(ch).sqrt(); r = t if r is None else r * t
             else: r = s.rf(a).sqrt()
         elif d == z3.Z3_OP_UNINTERPRETED and e.decl().name() == 'acos':
-            u = s.rf(e.arg(0)); sym = c.fresh('A'); c.acos[sym] = u; r = RF.var(c, sym)
+            u = s.rf(e.arg(0)); key = s._rfkey(u)
+            if key in s.acoskey: sym = s.acoskey[key]
+            else: sym = c.fresh('A'); s.acoskey[key] = sym; c.acos[sym] = u
+            r = RF.var(c, sym)
         elif d == z3.Z3_OP_UNINTERPRETED and e.decl().name() == 'exp':
             u = s.rf(e.arg(0)); key = s._rfkey(u)
             if key in s.expkey: sym = s.expkey[key]
@@ -66,6 +70,9 @@ class Algebra:
     def _rfkey(s, u):
         n = s.ctx.full(u.n)
         return (tuple(sorted(n.t.items())), tuple(sorted(u.d.items())))
+    def relation(s, var, poly_rf):
+        """register var^2 == poly (an RF with trivial denominator); even powers of var are reduced in every normal form"""
+        s.ctx.rel[var] = poly_rf.n
     # ---------------- differentiation ----------------
     def _order(s):
         c = s.ctx
@@ -106,6 +113,7 @@ class Algebra:
         for sy, rad in c.rad.items(): out += [z3.Real(sy) > 0, z3.Real(sy) * z3.Real(sy) == s.poly_z3(rad)]
         for sy, at in c.atom.items(): out += [z3.Real(sy) == s.poly_z3(at), z3.Real(sy) != 0]
         for sy in s.exp: out += [z3.Real(sy) > 0]
+        for v, p in c.rel.items(): out += [z3.Real(v) * z3.Real(v) == s.poly_z3(p)]
         for sy, u in c.acos.items():
             pass   # opaque value; only its derivative rule is used
         return out
